@@ -51,7 +51,7 @@ def vector_instrs(reg):
 
 
 UMLAUT_INSTR = "VERIF.N\xd6\xd6P*MIT*UML\xc4UTEN*\xdcBER*DREIUNDZWANZIG*BYTES"     # a custom instruction with a non-ASCII name (harness)
-CUSTOM_INSTRS = ["VERIF.PROBE", "VERIF.NOOP*WITH*A*NAME*LONGER*THAN*ANY*BUILTIN*INSTRUCTION", UMLAUT_INSTR, "VERIF." + "\u00c4\u00d6\u00dc*" * 12 + "NOOP", "VERIF.MyInstruction", "VERIFSQUARE", "verif.lower", "2VERIF", "424242", "4.25", "BOOL[1,0]", "INT[7", "integer.max", "Float.<", "name.cat"]
+CUSTOM_INSTRS = ["VERIF.PROBE", "VERIF.NOOP*WITH*A*NAME*LONGER*THAN*ANY*BUILTIN*INSTRUCTION", UMLAUT_INSTR, "VERIF." + "\u00c4\u00d6\u00dc*" * 12 + "NOOP", "VERIF.MyInstruction", "VERIFSQUARE", "verif.lower", "2VERIF", "424242", "4.25", "BOOL[1,0]", "INT[7", "integer.max", "Float.<", "name.cat", "intvector.sum", "VERIF.EARLY"]
 CUSTOM_TREE = CUSTOM_INSTRS[:10] + CUSTOM_INSTRS[12:]      # (a name shaped like a vector literal prints as that literal: outside C11's domain)
 RAND = ["BOOLEAN.RAND", "INTEGER.RAND", "FLOAT.RAND", "NAME.RAND", "NAME.RANDBOUNDNAME", "BOOLVECTOR.RAND", "INTVECTOR.RAND", "FLOATVECTOR.RAND"]
 LISTREC = ["LIST.ADD", "LIST.SET"]
@@ -70,7 +70,7 @@ def graph_instrs(reg):
 def run_c04(ctx):
     q = ctx.tier == "quick"
     instrs = scalar_instrs(ctx.registry)
-    mc_stage(ctx, "scalar", instrs, dict(IntVals=IP6 if q else IP10, FloatVals=FP7 if q else FP15, NameVals=["a", "b", "x y"],
+    mc_stage(ctx, "scalar", instrs, dict(IntVals=IP6 if q else IP10, FloatVals=FP7 if q else FP15, NameVals=["a", "b", "x y", "INTEGER.+"],
                                           DInt=2, DFloat=2, DBool=2, DName=2))
     run_events(ctx, "rand_scalar", random_instr_cases(ctx, instrs, 30 if q else 5000, ctx.seed))
     # NAME instructions on long names (every length class around powers of two)
@@ -223,6 +223,26 @@ def run_c08(ctx):
             s["exec"] = [ins(name), a, b]
             cs.append({"id": "crowded-%s-%d" % (name, j), "pre": s, "acts": [{"a": "step"}]})
     run_events(ctx, "crowded_code_stack", cs)
+    # atoms whose printed form is long (vectors of 17 ... 40 elements that differ only near their end), infinite floats
+    cs = []
+    fb = gen.f2b
+    for k, n in enumerate((16, 17, 20, 40)):
+        for kind, mk in (("ivec", lambda j: j), ("fvec", lambda j: fb(float(j))), ("bvec", lambda j: j % 2 == 0)):
+            a = {"k": kind, "v": [mk(j) for j in range(n)]}
+            b = {"k": kind, "v": [mk(j) for j in range(n - 1)] + [mk(n + 5)]}
+            for name in instrs:
+                s = gen.empty_state()
+                s["code"] = [lst([I(1), a]), lst([I(1), b]), a]
+                s["int"] = [1, 0]; s["exec"] = [ins(name), lst([a]), lst([b])]
+                cs.append({"id": "longatom-%d-%s-%s" % (n, kind, name), "pre": s, "acts": [{"a": "step"}]})
+    for name in instrs:
+        for k, (x, y) in enumerate(((fb(float("inf")), fb(float("inf"))), (fb(float("-inf")), fb(float("inf"))), (fb(1e-8), fb(2e-8)), (fb(3.4028235e38), fb(float("inf"))))):
+            s = gen.empty_state()
+            fx, fy = {"k": "float", "v": x}, {"k": "float", "v": y}
+            s["code"] = [fx, lst([I(1), fy, lst([fx])]), fy] if k % 2 == 0 else [lst([I(1), fy, lst([fx])]), fx, fy]
+            s["int"] = [2, 1]; s["exec"] = [ins(name), fx, fy]
+            cs.append({"id": "inffloat-%d-%s" % (k, name), "pre": s, "acts": [{"a": "step"}]})
+    run_events(ctx, "long_atoms_and_infinities", cs)
     # the Item functions themselves (API level)
     g = gen.Gen(ctx.seed + 19, ctx.registry, small_ints=True)
     ops = []
@@ -335,6 +355,16 @@ def run_c09(ctx):
     run_events(ctx, "vector_sequences", vector_sequence_cases(ctx, 60 if q else 3000))
     run_events(ctx, "long_vectors", long_vector_cases(ctx, 3 if q else 60, ctx.seed + 29))
     run_events(ctx, "aba_triples", aba_cases(ctx, instrs, 2 if q else 40, ctx.seed + 33))
+    # the operands on top of DEEP stacks (a dozen unrelated vectors, integers, floats below them): what lies below does not matter
+    g2 = gen.Gen(ctx.seed + 37, ctx.registry, small_ints=True)
+    cs = []
+    for c in random_instr_cases(ctx, instrs, 2 if q else 30, ctx.seed + 35, prefix="deepstack", small_ints=True):
+        s = c["pre"]
+        for f, mk in (("bvec", lambda: g2.bvec(3)), ("ivec", lambda: g2.ivec(3)), ("fvec", lambda: [gen.f2b(float(g2.r.randint(-4, 4))) for _ in range(g2.r.randint(0, 3))]),
+                      ("int", lambda: g2.r.randint(-3, 9)), ("float", lambda: gen.f2b(g2.r.randint(-8, 8) / 4.0)), ("bool", lambda: g2.r.random() < 0.5)):
+            s[f] = s[f][:3] + [mk() for _ in range(12)]
+        cs.append(c)
+    run_events(ctx, "deep_stacks", cs)
     # sums and means whose partial sums leave the range in which every integer is a float
     cs = []
     for k, v in enumerate([[16777216, 1, 1], [1, 1, 16777216], [16777217, 16777217], [33554432, 3, 1, 0], [-16777216, -1, -1], [2147483647, -2147483647, 9, 9, 9],
@@ -386,6 +416,21 @@ def run_c19(ctx):
     run_events(ctx, "rand_list", random_instr_cases(ctx, LISTREC + LISTVAL, 60 if q else 8000, ctx.seed, small_ints=True))
     # LIST.GET followed by execution of the pushed record: chains of steps validated one by one
     run_events(ctx, "list_roundtrip", list_roundtrip_cases(ctx, 100 if q else 10000))
+    # the same through whole runs: nested records (a record inside a record), non-finite floats among the literals, growth caps
+    # of a few ITEMS (a record of many points is one item)
+    g = gen.Gen(ctx.seed + 7, RANDFREE(ctx.registry), small_ints=True)
+    cs = []
+    I = lambda v: {"k": "int", "v": v}
+    for i in range(40 if q else 3000):
+        s = gen.empty_state()
+        s["bool"] = [g.r.random() < 0.5 for _ in range(4)]; s["int"] = [g.r.randint(-5, 5) for _ in range(3)]
+        s["float"] = [g.r.choice([gen.f2b(1.5), gen.f2b(float("inf")), gen.f2b(float("-inf")), 2143289344, gen.f2b(-0.0)]) for _ in range(3)]
+        s["cfg"]["growth_cap"] = g.r.choice([3, 4, 6, 500]); s["cfg"]["max_prog_points"] = g.r.choice([100, 2, 5])
+        inner = {"k": "ivec", "v": [g.r.choice([1, 5, 9]) for _ in range(g.r.randint(1, 4))]}
+        outer = {"k": "ivec", "v": [3, g.r.choice([5, 9])]}
+        s["exec"] = [lst([inner, ins("LIST.ADD"), outer, ins("LIST.ADD"), I(0), ins("LIST.GET")])]
+        cs.append({"id": "listrun-%05d" % i, "pre": s, "acts": [{"a": "copy_to_code"}, {"a": "steps", "k": 40}, {"a": "run_from_start"}]})
+    run_events(ctx, "list_runs", cs)
 
 
 def run_c20_instr(ctx):
@@ -435,8 +480,10 @@ def io_sequence_cases(ctx, n):
                 prog += [{"k": "ivec", "v": [g.r.randint(0, 9)]}, {"k": "bvec", "v": [True]}, {"k": "ins", "v": "OUTPUT.WRITE"}]
             elif k < 0.75:
                 prog.append({"k": "ins", "v": g.r.choice(IO)})
-            elif k < 0.85:
+            elif k < 0.82:
                 prog.append({"k": "int", "v": g.int()})
+            elif k < 0.85:      # other traffic that concerns the queues' neighbours (names being sent)
+                prog += [ins("NAME.QUOTE"), {"k": "id", "v": "peer"}, ins("NAME.SEND")]
             elif k < 0.93:
                 prog.append({"k": "bvec", "v": g.bvec(4)})
             else:
@@ -508,6 +555,14 @@ def run_c18_instr(ctx):
                 s["exec"] = [ins("GRAPH.NODE*STATESWITCH")]
                 cases.append({"id": "stateswitch-%03d" % k, "pre": s, "acts": [{"a": "step"}]}); k += 1
     cases += same_graph_cases()
+    # a graph of several thousand nodes: the queries answer with ALL the model's nodes, however many
+    for k, n in enumerate((6001,) if q else (4999, 5001, 6001, 20000)):
+        G = {"nodes": [{"id": j, "st": 1 + (j % 2)} for j in range(1, n + 1)], "edges": [{"d": 1, "in": [{"o": j, "w": F["h"]} for j in range(2, n + 1, 2)]}]}
+        for name, ints in (("GRAPH.NODES", [1]), ("GRAPH.NODES", [2]), ("GRAPH.NODE*PREDECESSORS", [1, 2, 1]), ("GRAPH.NODE*PREDECESSORS", [1]), ("GRAPH.NODE*NEIGHBORS", [1, 2, 1]), ("GRAPH.STACKDEPTH", [])):
+            s = gen.empty_state()
+            s["nid"] = n + 1; s["graph"] = [G]; s["int"] = ints + [1, 2, 1]
+            s["exec"] = [ins(name)]
+            cases.append({"id": "biggraph-%d-%s-%d" % (n, name, len(ints)), "pre": s, "acts": [{"a": "step"}]})
     run_events(ctx, "graph_sequences", cases)
 
 
@@ -619,6 +674,11 @@ def run_c06(ctx):
             s["bool"] = [True, False]
             s["exec"] = [lst([ins("NOOP")] * (n - 1) + [ins(t) for t in tail] + [{"k": "int", "v": 5}, {"k": "int", "v": 6}, {"k": "int", "v": 7}])]
             cs.append({"id": "longlist-%d-%s" % (n, tail[0]), "pre": s, "acts": [{"a": "steps", "k": 3}]})
+    for k, n in enumerate((9998, 10001) if q else (4094, 9998, 10001, 20000, 65534)):
+        s = gen.empty_state()
+        s["exec"] = [lst([{"k": "int", "v": 3}, ins("INDEX.DEFINE"), ins("EXEC.LOOP"), lst([ins("VERIF.PROBE")]), {"k": "int", "v": 8}])] + [ins("NOOP")] * n
+        s["code"] = [{"k": "int", "v": 1}] * (n if k % 2 else 3)
+        cs.append({"id": "pending-%d" % n, "pre": s, "acts": [{"a": "steps", "k": 14}]})
     run_events(ctx, "configuration_and_long_lists", cs)
     # loops cut off by the step limit: the state a run leaves behind is the state of that many single steps - counter on
     # INDEX, continuation on EXEC - so that the loop goes on where it stopped when the state is run again
@@ -637,6 +697,18 @@ def run_c06(ctx):
                 s["exec"] = [lst([{"k": "ivec", "v": list(range(n))}, ins("INTVECTOR.LOOP"), lst([ins("VERIF.PROBE"), ins("INTEGER.POP")]), I(99)])]
             cs.append({"id": "cutloop-%d-%s" % (k, loop), "pre": s, "acts": [{"a": "copy_to_code"}, {"a": "steps", "k": lim + 3}, {"a": "run_from_start"}]})
     run_events(ctx, "cut_loops", cs)
+    # bodies that use the stack the loop takes its operands from (vector literals, INTVECTOR.POP / DUP inside INTVECTOR.LOOP;
+    # INDEX.DEFINE / nested loops inside EXEC.LOOP): the elements still come in order, once each
+    cs = []
+    for k, body in enumerate([[ins("VERIF.PROBE"), {"k": "ivec", "v": [7]}], [ins("VERIF.PROBE"), {"k": "ivec", "v": [7, 8]}, ins("INTVECTOR.POP")],
+                              [ins("VERIF.PROBE"), ins("INTVECTOR.DUP")], [ins("VERIF.PROBE"), {"k": "ivec", "v": []}, ins("INTVECTOR.SWAP")],
+                              [ins("VERIF.PROBE"), {"k": "ivec", "v": [1, 2]}, ins("INTVECTOR.LOOP"), lst([ins("VERIF.PROBE"), ins("INTEGER.POP")])]]):
+        for v in ([10, 20, 30], [5], [], [1, 2, 3, 4, 5, 6]):
+            s = gen.empty_state()
+            s["ivec"] = [[99, 98]]
+            s["exec"] = [lst([{"k": "ivec", "v": v}, ins("INTVECTOR.LOOP"), lst(body + [ins("INTEGER.POP")]), I(77)])]
+            cs.append({"id": "ownstack-%d-%d" % (k, len(v)), "pre": s, "acts": [{"a": "steps", "k": 120}]})
+    run_events(ctx, "loops_on_their_own_stack", cs)
 
 
 def run_c07(ctx):
@@ -711,6 +783,23 @@ def run_c07(ctx):
             s["exec"] = [conv(t) for t in prog]
             cases.append({"id": "pendingquote-%d-%s" % (k, quote), "pre": s, "acts": [{"a": "copy_to_code"}, {"a": "steps", "k": 8}, {"a": "run_from_start"}]})
     run_events(ctx, "pending_quote", cases)
+    # names of every shape arrive through the parser ("for all names n"): spelled like TYPE.OPERATION without being an
+    # instruction of the running set, lower-case spellings of instructions, digits first, dots and stars; each is used
+    # unbound, defined, used bound, quoted, redefined
+    cases = []
+    for k, nm in enumerate(["INTEGER.SQUARE", "FLOAT.SCALE", "CODE.NOSUCH", "EXEC.x", "NAME.", "integer.dup", "noop", "Exec.If", "x", "x.y", "a*b", "7up", "GRAPH.NODE*"]):
+        text = "( %s 5 %s INTEGER.DEFINE %s NAME.QUOTE %s 6 NAME.QUOTE %s INTEGER.DEFINE %s NAME.QUOTE %s CODE.DEFINITION )" % ((nm,) * 7)
+        cases.append({"id": "nametext-%02d" % k, "pre": gen.empty_state(), "acts": [{"a": "parse", "text": text}, {"a": "steps", "k": 30}]})
+    # a name bound (EXEC.DEFINE / CODE.DEFINE) to ANOTHER bound name stays bound to that name: later definitions of the
+    # other name show through, CODE.DEFINITION returns the name
+    for k, how in enumerate(("EXEC", "CODE")):
+        alias = [{"k": "id", "v": "x"}, ins("EXEC.DEFINE"), {"k": "id", "v": "y"}] if how == "EXEC" else [ins("CODE.QUOTE"), {"k": "id", "v": "y"}, {"k": "id", "v": "x"}, ins("CODE.DEFINE")]
+        s = gen.empty_state()
+        s["bind"] = {"y": I(5)}
+        s["exec"] = alias + [{"k": "id", "v": "x"}, I(7), ins("NAME.QUOTE"), {"k": "id", "v": "y"}, ins("INTEGER.DEFINE"), {"k": "id", "v": "x"},
+                             ins("NAME.QUOTE"), {"k": "id", "v": "x"}, ins("CODE.DEFINITION")]
+        cases.append({"id": "alias-%s" % how, "pre": s, "acts": [{"a": "steps", "k": 20}]})
+    run_events(ctx, "name_texts", cases)
 
 
 # instructions whose result is not a function of the abstract state: random draws, the shell-out, and the graph
@@ -797,9 +886,9 @@ STACK_M0 = ["to_string", "size", "bottom_mut", "flush", "reverse", "pop_front", 
 STACK_M1 = ["remove", "get", "get_mut", "copy", "yank", "shove", "pop_vec", "copy_vec"]
 
 
-def random_stack_history(g, elem, n):
+def random_stack_history(g, elem, n, pool=None):
     r = g.r
-    el = (lambda: g.int()) if elem == "int" else (lambda: g.item(r.randint(1, 4), plain=True))
+    el = (lambda: r.choice(pool)) if pool else (lambda: g.int()) if elem == "int" else (lambda: g.item(r.randint(1, 4), plain=True))
     ops, size = [], 0
     for _ in range(n):
         k = r.random()
@@ -824,11 +913,15 @@ def random_stack_history(g, elem, n):
 
 def run_c16(ctx):
     q = ctx.tier == "quick"
-    for elem in ("int", "item"):
-        cfg = 'SPECIFICATION Spec\nCONSTANTS\n Elem = "%s"\n MaxLen = %d\nINVARIANTS Laws Emit\nCHECK_DEADLOCK FALSE\n' % (elem, 3 if q else 4)
+    for elem in ("int", "item", "float"):
+        cfg = 'SPECIFICATION Spec\nCONSTANTS\n Elem = "%s"\n MaxLen = %d\nINVARIANTS Laws Emit\nCHECK_DEADLOCK FALSE\n' % (elem, (3 if q else 4) if elem != "float" else (2 if q else 3))
         api_model(ctx, "MC_Stack", "mc_stack_" + elem, cfg, lambda c, elem=elem: {"api": "stack", "elem": elem, "init": c["init"], "ops": c["ops"]})
     g = gen.Gen(ctx.seed + 51, ctx.registry)
     cs = []
+    FL = [gen.f2b(x) for x in (1.21, 1.25, 1.2, 0.5, -2.75, 100.0, 0.0, -0.0, 0.05, 0.04, float("inf"), float("-inf"))] + [2143289344, -4194304]
+    for i in range(20 if q else 2000):
+        cs.append({"id": "floathist-%05d" % i, "api": "stack", "elem": "float", "init": [g.r.choice(FL) for _ in range(g.r.randint(0, 4))],
+                   "ops": random_stack_history(g, "float", 200, pool=FL)})
     for i in range(40 if q else 8000):
         elem = "int" if i % 2 == 0 else "item"
         odd = [{"k": "id", "v": "\u00e9"}, {"k": "id", "v": "a"}, {"k": "int", "v": 7}, lst([{"k": "id", "v": "\u00fc"}, {"k": "int", "v": 1}]), lst([{"k": "id", "v": "x"}, {"k": "int", "v": 1}]),
@@ -1042,7 +1135,7 @@ def parser_model(ctx, maxtoks, maxpoints):
 WS_CHARS = [" ", "\t", "\n", "\r", "\u000b", "\u000c", "\u0085", "\u00a0", "\u1680", "\u2003", "\u2028", "\u3000", "  "]
 ODD_TOKENS = ["(", ")", "(", ")", "INT[1,", "FLOAT[1.5,", "BOOL[1,", "INT[,", "INT[", "INT[]", "INT[1,2]", "INT[1,2}", "INT[1,,2]", "INT[\u00e9", "INT[1\u00e9", "BOOL[", "BOOL[1,0,true,false]", "BOOL[TRUE]",
               "FLOAT[", "FLOAT[1.5,-0.25]", "FLOAT[1e3,nan]", "FLOAT[x]", "\u00e9]", "\u00e9", "na\u00efve", "\u4e2d\u6587", "(x", "x)", "()", "1", "-1", "+1", "007",
-              "2147483647", "2147483648", "-2147483648", "-2147483649", "1.5", "-0.125", ".5", "5.", "1e3", "1E-2", "inf", "-Infinity", "NaN", "nan", "infinit", "infinity", "Infinity", "INFINITY", "+infinity", "+inf", "-inf", "+NaN", "-nan", "iNf", "nAn", "infinityy", "1e400", "-1e400", "1e-400", "0x10", "1_000", "+.5e3", "-1E-3", "1e+2", "e5", ".e5", ".", "1.2.3", "1e", "--1",
+              "2147483647", "2147483648", "-2147483648", "-2147483649", "1.5", "-0.125", ".5", "5.", "1e3", "1E-2", "inf", "-Infinity", "NaN", "nan", "infinit", "infinity", "Infinity", "INFINITY", "+infinity", "+inf", "-inf", "+NaN", "-nan", "iNf", "nAn", "infinityy", "INTEGER.SQUARE", "FLOAT.SCALE", "CODE.NOSUCH", "EXEC.", ".EXEC", "NAME.x", "BOOLEAN.and", "FLOAT[1.5,NaN,2.5]", "FLOAT[nan]", "FLOAT[inf,-inf]", "1e400", "-1e400", "1e-400", "0x10", "1_000", "+.5e3", "-1E-3", "1e+2", "e5", ".e5", ".", "1.2.3", "1e", "--1",
               "TRUE", "FALSE", "true", "INTEGER.+", "CODE.QUOTE", "VERIF.PROBE", "VERIF.NOOP*WITH*A*NAME*LONGER*THAN*ANY*BUILTIN*INSTRUCTION", UMLAUT_INSTR, CUSTOM_INSTRS[3], CUSTOM_INSTRS[4], CUSTOM_INSTRS[5], CUSTOM_INSTRS[6], CUSTOM_INSTRS[7], CUSTOM_INSTRS[10], CUSTOM_INSTRS[11], CUSTOM_INSTRS[12], CUSTOM_INSTRS[13], "Integer.Max", "verif.myinstruction", "VERIFSQUAR", "2verif", "GRAPH.NODE*PREDECESSORS", "EXEC.DO*COUNT", "integer.+", "foo", "foo-bar", "x1", "[1,2]", "BOOLVECTOR.AND", "NOOP"]
 
 
@@ -1223,7 +1316,7 @@ def run_c12(ctx):
     draws = 8 if q else 120
     cs = []
     k = 0
-    for ilist in ([], ["INTEGER.+"], ["EXEC.CMD", "BOOLEAN.AND"], ctx.registry):
+    for ilist in ([], ["INTEGER.+"], ["EXEC.CMD"], ["EXEC.CMD", "BOOLEAN.AND"], ctx.registry):
         for bound in ({}, {"a": {"k": "int", "v": 1}, "b": {"k": "bool", "v": True}, "c": {"k": "list", "v": []}},
                       {"x": {"k": "int", "v": 2}, "y": {"k": "int", "v": 3}, "zz": {"k": "list", "v": []}}, {"a": {"k": "int", "v": 1}, "q": {"k": "int", "v": 3}, "c": {"k": "list", "v": []}}):
             # (probabilities outside [0, 1] and NaN are configuration values like any other: only sizes and leaves are judged)
@@ -1324,7 +1417,7 @@ def run_c13(ctx):
             cs.append({"id": "genscalar-%03d" % k, "api": "gen", "state": st, "ops": o}); k += 1
     for bound in ({}, {"a": {"k": "int", "v": 1}}, {"a": {"k": "int", "v": 1}, "b": {"k": "bool", "v": True}, "zz": {"k": "list", "v": []}},
                   # names no parser produces (NAME.CAT joins with a blank; the empty name) are bound names all the same
-                  {"ALPHA BETA": {"k": "int", "v": 7}, "GAMMA DELTA": {"k": "int", "v": 9}}, {"": {"k": "int", "v": 1}}, {"x y": {"k": "bool", "v": True}},
+                  {"ALPHA BETA": {"k": "int", "v": 7}, "GAMMA DELTA": {"k": "int", "v": 9}}, {"": {"k": "int", "v": 1}}, {"x y": {"k": "bool", "v": True}}, {"INTEGER.+": {"k": "int", "v": 4}, "NOOP": {"k": "int", "v": 5}, "VERIF.PROBE": {"k": "int", "v": 6}},
                   {"\u00e9t\u00e9": {"k": "int", "v": 1}, "( a )": {"k": "int", "v": 2}, "7": {"k": "int", "v": 3}, "INTEGER.+": {"k": "int", "v": 4}}):
         for pnew in (0.001, 0.5, 1.0, 0.0):      # the probability of a NEW name must not leak into the choice of a BOUND name
             st = gen.empty_state(); st["bind"] = bound; st["cfg"]["new_name_p"] = fb(pnew)
@@ -1345,6 +1438,13 @@ def run_c13(ctx):
             s["cfg"]["min_f"], s["cfg"]["max_f"] = g.r.choice([(fb(16777216.0), fb(16777218.0)), (fb(1.0), fb(1.0000001192092896)), (fb(-2.0), fb(-1.9999998)),
                                                                (fb(-3.4028234663852886e38), fb(3.4028234663852886e38)), (fb(float("-inf")), fb(2.0)), (fb(-3e38), fb(float("inf")))])
         cs.append({"id": "randins-%05d" % i, "pre": s, "acts": [{"a": "step"}]})
+    for k, name in enumerate(RAND):          # draws accumulate: the thousand-and-first result is as good as the first
+        s = gen.empty_state()
+        s["bvec"] = [[True]] * 1000; s["ivec"] = [[1]] * 1000; s["fvec"] = [[fb(1.0)]] * 1000
+        s["int"] = [3, 0, 5] + [1] * 1000; s["float"] = [fb(0.5), fb(1.0)] + [fb(2.0)] * 1000; s["bool"] = [True] * 1000; s["name"] = ["n"] * 1000
+        s["bind"] = {"a": {"k": "int", "v": 1}}
+        s["exec"] = [ins(name)]
+        cs.append({"id": "crowdedrand-%d" % k, "pre": s, "acts": [{"a": "step"}]})
     run_events(ctx, "rand_instructions", cs)
 
 
@@ -1487,7 +1587,11 @@ def run_c14(ctx):
         parts += [")"] * depth
         # half of the programs are bare sequences of top-level items (no enclosing list)
         cs.append({"id": "cli-%04d" % i, "text": ("( " + " ".join(parts) + " )") if i % 2 == 0 else " ".join(parts)})
-    for i, t in enumerate(["1 2 INTEGER.+", "CODE.POP CODE.POP CODE.DO* 3 4", "( 1 ) ( 2 ) CODE.APPEND 7", "a b c CODE.CAR", ""]):
+    # (the last ones: instructions that consult the instruction cache they are handed - the front end builds its own)
+    for i, t in enumerate(["1 2 INTEGER.+", "CODE.POP CODE.POP CODE.DO* 3 4", "( 1 ) ( 2 ) CODE.APPEND 7", "a b c CODE.CAR", "",
+                           "( CODE.FLUSH CODE.QUOTE INTEGER.+ CODE.PRINT CODE.POP 3 4 CODE.FROMNAME CODE.DO )",
+                           "( CODE.QUOTE NOOP CODE.PRINT CODE.FROMNAME CODE.DO 5 NAME.QUOTE x INTEGER.DEFINE x )",
+                           "( 3 CODE.RAND CODE.LENGTH 0 INTEGER.> )"][:7]):
         cs.append({"id": "cli-bare-%d" % i, "text": t})
     clp = os.path.join(ctx.work, "cli.cases.ndjson")
     with open(clp, "w") as f:
@@ -1666,7 +1770,16 @@ def run_c10(ctx):
     run_events(ctx, "rand_instr", random_instr_cases(ctx, ctx.registry, 4 if q else 150, ctx.seed + 2))
     # guards that fail because of HOW the state came about (equal snapshots built in different orders), and instructions
     # inside the structures other instructions leave behind (FLUSH / POP inside a running loop)
-    run_events(ctx, "histories", same_graph_cases() + flush_in_loop_cases(ctx))
+    cs = []
+    fb = gen.f2b
+    for k, (n, sp) in enumerate([(1, 1.4), (0, 1.5), (2, 1.2), (1, -0.5), (0, -0.1), (3, float("nan")), (1, 1.0000001), (2, 2.0), (0, 1.0), (1, 0.0), (-1, 0.5), (-1, 1.5)]):
+        for name, ints, floats in (("BOOLVECTOR.RAND", [n, 9], [fb(sp), fb(7.0)]), ("FLOATVECTOR.RAND", [n, 9], [fb(-abs(sp)) if sp == sp else fb(sp), fb(0.0), fb(7.0)]),
+                                   ("INTVECTOR.RAND", [n, 5, 5, 9], [fb(7.0)]), ("INTVECTOR.RAND", [n, 7, 3, 9], [fb(7.0)])):
+            s = gen.empty_state()
+            s["int"] = ints; s["float"] = floats; s["bvec"] = [[True]]; s["ivec"] = [[1]]; s["fvec"] = [[fb(1.0)]]
+            s["exec"] = [ins(name)]
+            cs.append({"id": "randguard-%02d-%s-%d" % (k, name, len(ints)), "pre": s, "acts": [{"a": "step"}]})
+    run_events(ctx, "histories", same_graph_cases() + flush_in_loop_cases(ctx) + cs)
 
 
 def flush_in_loop_cases(ctx):
@@ -1681,6 +1794,7 @@ def flush_in_loop_cases(ctx):
             s["int"] = [3, 7, 8]; s["bool"] = [True, False]; s["float"] = [gen.f2b(1.5), gen.f2b(2.0)]; s["name"] = ["a", "b"]
             s["code"] = [I(1), lst([I(2)])]; s["bvec"] = [[True], [False]]; s["ivec"] = [[1], [2]]; s["fvec"] = [[gen.f2b(1.0)], [gen.f2b(2.0)]]
             s["index"] = [{"cur": 0, "dst": 5}]
+            s["quote"] = k % 2 == 0; s["send"] = k % 3 == 0
             s["exec"] = [I(5), ins("INDEX.DEFINE"), I(3), ins("INDEX.DEFINE"), ins(loop), lst([I(7), ins(name), I(8)]), I(9)]
             cs.append({"id": "inloop-%s-%s" % (name, loop), "pre": s, "acts": [{"a": "steps", "k": 14}]})
     return cs
@@ -1697,6 +1811,19 @@ def run_c01(ctx):
         # includes them; what their steps do is not judged, a crash is
         run_events(ctx, "unspecified_instr", random_instr_cases(ctx, ctx.extra, 40 if q else 1000, ctx.seed + 6, prefix="xi") +
                    random_program_cases(ctx, 60 if q else 3000, ctx.seed + 7, registry=ctx.registry + ctx.extra * 8, prefix="xprog"))
+    # the code generator inside the interpreter under configuration values of every kind (probabilities outside [0, 1], NaN,
+    # empty RAND intervals): generated programs are produced, pushed and executed without a crash
+    cs = []
+    gq = gen.Gen(ctx.seed + 8, ctx.registry, small_ints=True)
+    for i, p in enumerate([0, gen.f2b(0.5), gen.f2b(1.0), gen.f2b(1.5), gen.f2b(-0.25), 2143289344, gen.f2b(float("inf")), gen.f2b(-1e30)] * (2 if q else 40)):
+        s = gq.state(depth=2)
+        s["cfg"]["new_name_p"] = p
+        if i % 3 == 0:
+            s["cfg"].update(min_i=5, max_i=5, min_f=gen.f2b(2.0), max_f=gen.f2b(-2.0))
+        s["int"] = [gq.r.choice([2, 5, 12, 25, -7])] + s["int"]
+        s["exec"] = [ins("CODE.RAND"), ins("CODE.DUP"), ins("CODE.DO"), ins("CODE.RAND")]
+        cs.append({"id": "coderand-%04d" % i, "pre": s, "acts": [{"a": "steps", "k": 40}]})
+    run_events(ctx, "code_generator_configurations", cs)
     # family-specific sequences (multi-step histories the uniform generator rarely produces)
     seqs = io_sequence_cases(ctx, 60 if q else 3000) + graph_sequence_cases(ctx, 30 if q else 2000) + \
         loop_program_cases(ctx, 20 if q else 1000) + list_roundtrip_cases(ctx, 40 if q else 2000) + vector_sequence_cases(ctx, 30 if q else 1500)
@@ -1770,7 +1897,8 @@ PLANS = {
     "C05": dict(run=run_c05),
     # (the outcome of a whole run is C02's subject; in these stages it is the loop state / the pending quote that is compared)
     "C06": dict(run=run_c06, judge=dict(extra_owner=lambda j, stage: stage == "cut_loops" and j.get("subj") == "run")),
-    "C07": dict(run=run_c07, judge=dict(extra_owner=lambda j, stage: stage == "pending_quote" and j.get("subj") == "run")),
+    # (a name misread by the parser never becomes a name: in stage name_texts that is C07's "for all names n")
+    "C07": dict(run=run_c07, judge=dict(extra_owner=lambda j, stage: (stage == "pending_quote" and j.get("subj") == "run") or (stage == "name_texts" and j.get("subj") == "parse"))),
     "C08": dict(run=run_c08),
     "C09": dict(run=run_c09),
     "C10": dict(run=run_c10, judge=dict(frame=True)),
@@ -1779,7 +1907,8 @@ PLANS = {
     "C16": dict(run=run_c16),
     "C17": dict(run=run_c17, judge=dict(extra_owner=lambda j, stage: stage == "io_runs" and j.get("subj") == "run" and bool(set(j.get("fields", [])) & {"input", "output"}))),
     "C18": dict(run=run_c18),
-    "C19": dict(run=run_c19),
+    # ("LIST.GET followed by execution puts the record's literal items back": the execution steps of that stage are claimed)
+    "C19": dict(run=run_c19, judge=dict(extra_owner=lambda j, stage: stage in ("list_roundtrip", "list_runs") and (str(j.get("subj", "")).startswith("step:") or j.get("subj") == "run"))),
     "C20": dict(run=run_c20),
 }
 
